@@ -62,6 +62,7 @@ type Rec struct {
 	completed map[string]int64
 	exhaust   map[string]bool
 	notes     []string
+	floors    map[string]int64
 	findings  map[string]Finding
 	start     time.Time
 	lastFlush time.Time
@@ -130,6 +131,7 @@ func newRec(id string) *Rec {
 		requested: map[string]int64{},
 		completed: map[string]int64{},
 		exhaust:   map[string]bool{},
+		floors:    map[string]int64{},
 		findings:  map[string]Finding{},
 		start:     time.Now(),
 		lastFlush: time.Now(),
@@ -282,6 +284,15 @@ func (r *Rec) Note(s string) {
 	r.mu.Unlock()
 }
 
+// Floor declares that the merged count of a class must reach min for the run
+// to be conclusive (a generator that stops producing the shape that matters
+// makes the check vacuous; the driver then reports INCONCLUSIVE, exit 2).
+func (r *Rec) Floor(class string, min int64) {
+	r.mu.Lock()
+	r.floors[class] = min
+	r.mu.Unlock()
+}
+
 // Exhaustive marks a named finite sub-space as completely enumerated.
 func (r *Rec) Exhaustive(name string, done bool) {
 	r.mu.Lock()
@@ -352,6 +363,7 @@ type statsFile struct {
 	Completed   map[string]int64           `json:"completed"`
 	Exhaustive  map[string]bool            `json:"exhaustive"`
 	Notes       []string                   `json:"notes"`
+	Floors      map[string]int64           `json:"floors"`
 	WallSeconds float64                    `json:"wall_s"`
 }
 
@@ -372,7 +384,7 @@ func (r *Rec) Flush() {
 	sf := statsFile{
 		Property: r.PropID, Rule: r.rule, Shard: Shard(), Pid: os.Getpid(), Evals: r.evals, Classes: r.classes,
 		Distinct: d, Samples: r.samples, Known: r.known, KnownEx: r.knownEx, Violations: r.viol,
-		Requested: r.requested, Completed: r.completed, Exhaustive: r.exhaust, Notes: r.notes,
+		Requested: r.requested, Completed: r.completed, Exhaustive: r.exhaust, Notes: r.notes, Floors: r.floors,
 		WallSeconds: time.Since(r.start).Seconds(),
 	}
 	b, err := json.Marshal(sf)
